@@ -1917,8 +1917,6 @@ def hist_parameter(program, res, pid, state):
     poisoned = False
     for call in program["calls"]:
         label, value = POOL_VALUES[call["v"] % len(POOL_VALUES)]
-        if isinstance(value, list) and cls_name in ("ValueRestricted", "TwoRules"):
-            label, value = "c", "c"
         if cls_name == "TwoRules" and value is not None and not isinstance(value, str) and not allow_known:
             res.count("excluded_by_finding")  # two rules broken at once: pool-keeps-errors
             continue
@@ -1932,7 +1930,8 @@ def hist_parameter(program, res, pid, state):
         _, fresh_param = make_parameter(variant)
         fresh = verdict_of(lambda: assign(fresh_param))
         state.note(fresh[0])
-        if fresh[0] != expect:
+        if fresh[0] != expect and not (fresh[0] == "crash" and expect == "reject"):
+            # (a list offered to a value rule is refused through a TypeError of the membership test: still a refusal)
             res.fail(f"{pid}/history/fresh-verdict-wrong/parameter/{cls_name}/{label}",
                      f"fresh {cls_name}.value = {value!r} -> {fresh}; by construction {expect}")
         ok = compare_call(res, pid, "parameter", "value", got, fresh, f"{cls_name} = {value!r}",
@@ -1942,14 +1941,10 @@ def hist_parameter(program, res, pid, state):
         if got[0] != "accept":
             after = snap(used.value)
             if after != before:
-                # KNOWN FINDING (parameter-stores-before-validating); the stored value is put back
-                # so that the history continues from the documented state.
-                sig = f"{pid}/history/rejected-call-changed-state/parameter/value/known:parameter-stores-first"
-                if allow_known:
-                    res.fail(sig, f"{cls_name}.value = {value!r} was refused ({got[1]}) but value is now {after} "
-                                  f"(was {before})")
-                else:
-                    res.count("excluded_by_finding")
+                # (the finding parameter-stores-before-validating is repaired: guard retired); the stored value is put
+                # back so that the history continues from the documented state.
+                res.fail(f"{pid}/history/rejected-call-changed-state/parameter/value/{cls_name}",
+                         f"{cls_name}.value = {value!r} was refused ({got[1]}) but value is now {after} (was {before})")
                 used._value = dec_snap(before)  # pylint: disable=protected-access
         if not ok and not poisoned:
             break
